@@ -28,7 +28,8 @@ func quietLogger() *log.Logger { return log.New(io.Discard, "", 0) }
 // corpus: known-finding witnesses and boundary cases
 
 type corpusCase struct {
-	W worldCfg
+	D deployment
+	U int // index of the upstream addressed
 	S scenario
 	R reqShape
 }
@@ -46,49 +47,82 @@ func corpus() []corpusCase {
 	dup := script{Status: 200, Lines: []line{{"X-Frame-Options", "ALLOWALL"}, {"x-frame-options", "DENY"}, {"X-FRAME-OPTIONS", ""},
 		{"X-Xss-Protection", "0"}, {"X-XSS-Protection", "0"}, {"x-content-type-options", "sniff"}, {"X-Frame-Options ", "spaced"},
 		{"Connection", "X-Frame-Options, strict-transport-security"}, {"Strict-Transport-Security", "max-age=0"}}}
+	trailerBoth := script{Status: 200, Lines: []line{{"Trailer", "Strict-Transport-Security, X-Frame-Options"}},
+		Announced: []string{"Strict-Transport-Security", "X-Frame-Options"},
+		Trailers:  []line{{"Strict-Transport-Security", "max-age=0"}, {"X-Frame-Options", "ALLOWALL"}}}
+	trailerMixed := script{Status: 200, Lines: []line{{"Trailer", "X-Frame-Options, X-Checksum"}},
+		Announced: []string{"X-Frame-Options", "X-Checksum"},
+		Trailers:  []line{{"X-Frame-Options", "ALLOWALL"}, {"X-Checksum", "abc"}}}
+	ovAll := []override{{"X-Frame-Options", "DENY"}, {"X-Content-Type-Options", "none"}, {"X-Xss-Protection", "0"},
+		{"Strict-Transport-Security", "max-age=1"}, {"Cache-Control", "no-store"}}
+	// overrides first, then none, then one
+	multiA := deployment{Ups: []worldCfg{{Secure: true, Replace: true, Overrides: ovAll}, {Replace: true}, {Replace: false, Overrides: []override{{"x-frame-options", "ALLOWALL"}}}},
+		Simple: []bool{true, true, false}}
+	// none first, overrides in the middle, none last
+	multiB := deployment{Ups: []worldCfg{{Secure: true, Replace: false}, {Replace: true, Overrides: ovAll}, {Replace: true}},
+		Simple: []bool{false, true, false}}
 	return []corpusCase{
 		// K1 / K2: upstream HSTS under TimeoutHandler (replace) and without (append)
-		{worldCfg{Secure: true, Replace: true}, fw(hsts0), std},
-		{worldCfg{Secure: true, Replace: false}, fw(hsts0), std},
+		{single(worldCfg{Secure: true, Replace: true}), 0, fw(hsts0), std},
+		{single(worldCfg{Secure: true, Replace: false}), 0, fw(hsts0), std},
 		// K3: one 1xx response without TimeoutHandler wipes everything; harmless with it
-		{worldCfg{Secure: true, Replace: false}, fw(script{Status: 200, N1xx: 1}), std},
-		{worldCfg{Secure: true, Replace: true}, fw(script{Status: 200, N1xx: 1}), std},
+		{single(worldCfg{Secure: true, Replace: false}), 0, fw(script{Status: 200, N1xx: 1}), std},
+		{single(worldCfg{Secure: true, Replace: true}), 0, fw(script{Status: 200, N1xx: 1}), std},
 		// K4: announced trailer named like a protected header, with and without TimeoutHandler
-		{worldCfg{Secure: true, Replace: true}, fw(trailerXFO), std},
-		{worldCfg{Secure: true, Replace: false}, fw(trailerXFO), std},
-		{worldCfg{Secure: true, Replace: true}, fw(trailerHSTS), std},
-		{worldCfg{Secure: true, Replace: true}, fw(unannounced), std},
+		{single(worldCfg{Secure: true, Replace: true}), 0, fw(trailerXFO), std},
+		{single(worldCfg{Secure: true, Replace: false}), 0, fw(trailerXFO), std},
+		{single(worldCfg{Secure: true, Replace: true}), 0, fw(trailerHSTS), std},
+		{single(worldCfg{Secure: true, Replace: true}), 0, fw(unannounced), std},
 		// protected headers duplicated, case-varied, empty, spaced, folded into Connection
-		{worldCfg{Secure: true, Replace: true}, fw(dup), std},
-		{worldCfg{Secure: true, Replace: false}, fw(dup), std},
-		{worldCfg{Secure: false, Replace: true}, fw(dup), reqShape{Host: "app.example.test", Target: "/"}},
+		{single(worldCfg{Secure: true, Replace: true}), 0, fw(dup), std},
+		{single(worldCfg{Secure: true, Replace: false}), 0, fw(dup), std},
+		{single(worldCfg{Secure: false, Replace: true}), 0, fw(dup), reqShape{Host: "app.example.test", Target: "/"}},
 		// overrides win over the proxy's value and over the upstream's
-		{worldCfg{Secure: true, Replace: true, Overrides: []override{{"x-frame-options", "DENY"}, {"Strict-Transport-Security", "max-age=5"}}}, fw(dup), std},
-		{worldCfg{Secure: false, Replace: false, Overrides: []override{{"Strict-Transport-Security", "max-age=5"}}},
+		{single(worldCfg{Secure: true, Replace: true, Overrides: []override{{"x-frame-options", "DENY"}, {"Strict-Transport-Security", "max-age=5"}}}), 0, fw(dup), std},
+		{single(worldCfg{Secure: false, Replace: false, Overrides: []override{{"Strict-Transport-Security", "max-age=5"}}}), 0,
 			fw(script{Status: 200}), reqShape{Host: "app.example.test", Target: "/"}},
 		// http.Error on /oauth2/auth re-sets X-Content-Type-Options although it is overridden
-		{worldCfg{Secure: false, Replace: true, Overrides: []override{{"X-Content-Type-Options", "none"}}},
+		{single(worldCfg{Secure: false, Replace: true, Overrides: []override{{"X-Content-Type-Options", "none"}}}), 0,
 			scenario{Name: "auth-only-no-cookie", Class: "LAuthOnly401", Cookies: []string{ckS(true)}}, reqShape{Host: "app.example.test", Target: "/oauth2/auth"}},
 		// https redirect: port, escapes, query, non-ASCII, absolute-form, X-Forwarded-Proto variants
-		{worldCfg{Secure: true, Replace: true}, scenario{Name: "plain-http", Class: "LCerts"}, reqShape{Host: "app.example.test:8080", Target: "/a%20b/%3Fq?x=1&y=%26"}},
-		{worldCfg{Secure: true, Replace: true}, scenario{Name: "plain-http", Class: "LSignIn"}, reqShape{Host: "app.example.test", Target: "/caf%C3%A9?q=caf\xc3\xa9", XFP: []string{"http"}}},
-		{worldCfg{Secure: true, Replace: true}, fw(hsts0), reqShape{Host: "app.example.test", Target: "/x", XFP: []string{"HTTPS"}}},
-		{worldCfg{Secure: true, Replace: true}, scenario{Name: "plain-http", Class: "LSignIn"}, reqShape{Host: "app.example.test", Target: "//evil.test/%2e%2e"}},
-		{worldCfg{Secure: true, Replace: true}, scenario{Name: "absolute-https", Class: "LRobots"}, reqShape{Host: "app.example.test", Target: "https://app.example.test/robots.txt"}},
-		{worldCfg{Secure: true, Replace: true}, scenario{Name: "absolute-http", Class: "LRobots"}, reqShape{Host: "app.example.test", Target: "http://app.example.test/robots.txt"}},
+		{single(worldCfg{Secure: true, Replace: true}), 0, scenario{Name: "plain-http", Class: "LCerts"}, reqShape{Host: "app.example.test:8080", Target: "/a%20b/%3Fq?x=1&y=%26"}},
+		{single(worldCfg{Secure: true, Replace: true}), 0, scenario{Name: "plain-http", Class: "LSignIn"}, reqShape{Host: "app.example.test", Target: "/caf%C3%A9?q=caf\xc3\xa9", XFP: []string{"http"}}},
+		{single(worldCfg{Secure: true, Replace: true}), 0, fw(hsts0), reqShape{Host: "app.example.test", Target: "/x", XFP: []string{"HTTPS"}}},
+		{single(worldCfg{Secure: true, Replace: true}), 0, scenario{Name: "plain-http", Class: "LSignIn"}, reqShape{Host: "app.example.test", Target: "//evil.test/%2e%2e"}},
+		{single(worldCfg{Secure: true, Replace: true}), 0, scenario{Name: "absolute-https", Class: "LRobots"}, reqShape{Host: "app.example.test", Target: "https://app.example.test/robots.txt"}},
+		{single(worldCfg{Secure: true, Replace: true}), 0, scenario{Name: "absolute-http", Class: "LRobots"}, reqShape{Host: "app.example.test", Target: "http://app.example.test/robots.txt"}},
 		// cookie attributes: domain from host with port / configured / invalid, Secure off
-		{worldCfg{Secure: false, Replace: true}, scenario{Name: "no-cookie", Class: "LSignIn", Cookies: []string{ckS(true), ckC(false)}}, reqShape{Host: "app.example.test:8080", Target: "/x"}},
-		{worldCfg{Secure: true, Replace: true, CookieDomain: ".example.test"}, scenario{Name: "no-cookie", Class: "LSignIn", Cookies: []string{ckS(true), ckC(false)}}, reqShape{Host: "app.example.test", Target: "/x", XFP: https}},
-		{worldCfg{Secure: false, Replace: true, CookieDomain: "bad_domain"}, scenario{Name: "sign-out", Class: "LSignOut", Cookies: []string{ckS(true)}}, reqShape{Host: "app.example.test", Target: "/oauth2/sign_out"}},
-		{worldCfg{Secure: false, Replace: true}, scenario{Name: "no-cookie", Class: "LSignIn", Cookies: []string{ckS(true), ckC(false)}}, reqShape{Host: "[::1]:8080", Target: "/x"}},
-		{worldCfg{Secure: false, Replace: true}, scenario{Name: "no-cookie", Class: "LSignIn", Cookies: []string{ckS(true), ckC(false)}}, reqShape{Host: "my_app.example.test", Target: "/x"}},
+		{single(worldCfg{Secure: false, Replace: true}), 0, scenario{Name: "no-cookie", Class: "LSignIn", Cookies: []string{ckS(true), ckC(false)}}, reqShape{Host: "app.example.test:8080", Target: "/x"}},
+		{single(worldCfg{Secure: true, Replace: true, CookieDomain: ".example.test"}), 0, scenario{Name: "no-cookie", Class: "LSignIn", Cookies: []string{ckS(true), ckC(false)}}, reqShape{Host: "app.example.test", Target: "/x", XFP: https}},
+		{single(worldCfg{Secure: false, Replace: true, CookieDomain: "bad_domain"}), 0, scenario{Name: "sign-out", Class: "LSignOut", Cookies: []string{ckS(true)}}, reqShape{Host: "app.example.test", Target: "/oauth2/sign_out"}},
+		{single(worldCfg{Secure: false, Replace: true}), 0, scenario{Name: "no-cookie", Class: "LSignIn", Cookies: []string{ckS(true), ckC(false)}}, reqShape{Host: "[::1]:8080", Target: "/x"}},
+		{single(worldCfg{Secure: false, Replace: true}), 0, scenario{Name: "no-cookie", Class: "LSignIn", Cookies: []string{ckS(true), ckC(false)}}, reqShape{Host: "my_app.example.test", Target: "/x"}},
 		// the upstream does not answer: 502 (both modes), and 503 from TimeoutHandler
-		{worldCfg{Secure: true, Replace: true}, scenario{Name: "upstream-drops", Class: "LBadGateway", User: true, Script: script{Mode: "close"}}, std},
-		{worldCfg{Secure: true, Replace: false}, scenario{Name: "upstream-drops", Class: "LBadGateway", User: true, Script: script{Mode: "close"}}, std},
-		{worldCfg{Secure: true, Replace: true, ShortTimeout: true}, scenario{Name: "upstream-hangs", Class: "LTimeout", User: true, Script: script{Mode: "hang"}}, std},
+		{single(worldCfg{Secure: true, Replace: true}), 0, scenario{Name: "upstream-drops", Class: "LBadGateway", User: true, Script: script{Mode: "close"}}, std},
+		{single(worldCfg{Secure: true, Replace: false}), 0, scenario{Name: "upstream-drops", Class: "LBadGateway", User: true, Script: script{Mode: "close"}}, std},
+		{single(worldCfg{Secure: true, Replace: true, ShortTimeout: true}), 0, scenario{Name: "upstream-hangs", Class: "LTimeout", User: true, Script: script{Mode: "hang"}}, std},
 		// a malformed upstream header block is a transport error: 502
-		{worldCfg{Secure: true, Replace: true}, scenario{Name: "upstream-malformed", Class: "LBadGateway", User: true,
+		{single(worldCfg{Secure: true, Replace: true}), 0, scenario{Name: "upstream-malformed", Class: "LBadGateway", User: true,
 			Script: script{Status: 200, Lines: []line{{"X-Frame(Options", "x"}}}}, std},
+		// several upstreams in one deployment: every upstream is judged against ITS OWN overrides, whatever
+		// the file order (an earlier upstream's override must not show up on a later one, and vice versa)
+		{multiA, 0, fw(script{Status: 200}), reqShape{Host: "u0.example.test", Target: "/", XFP: https}},
+		{multiA, 1, fw(script{Status: 200}), reqShape{Host: "u1.example.test", Target: "/", XFP: https}},
+		{multiA, 2, fw(script{Status: 200}), reqShape{Host: "u2.example.test:8080", Target: "/", XFP: https}},
+		{multiA, 1, scenario{Name: "no-cookie", Class: "LSignIn", Cookies: []string{ckS(true), ckC(false)}}, reqShape{Host: "u1.example.test", Target: "/x", XFP: https}},
+		{multiB, 0, fw(script{Status: 200}), reqShape{Host: "u0.example.test", Target: "/", XFP: https}},
+		{multiB, 1, fw(script{Status: 200}), reqShape{Host: "u1.example.test", Target: "/", XFP: https}},
+		{multiB, 2, fw(dup), reqShape{Host: "U2.Example.Test", Target: "/", XFP: https}},
+		{multiB, 2, scenario{Name: "certs", Class: "LCerts"}, reqShape{Host: "u2.example.test", Target: "/oauth2/v1/certs", XFP: https}},
+		// trailers named like protected headers after the repair: header fields intact, client trailer carries them
+		{single(worldCfg{Secure: true, Replace: true}), 0, fw(trailerBoth), std},
+		{single(worldCfg{Secure: true, Replace: false}), 0, fw(trailerBoth), std},
+		{single(worldCfg{Secure: true, Replace: true}), 0, fw(trailerMixed), std},
+		{single(worldCfg{Secure: true, Replace: false}), 0, fw(trailerMixed), std},
+		// origin-form request lines on a real listener: Domain attribute present for a plain host, a host with port; absent only for IPv6
+		{single(worldCfg{Secure: false, Replace: true}), 0, scenario{Name: "sign-out", Class: "LSignOut", Cookies: []string{ckS(true)}}, reqShape{Host: "app.example.test:8443", Target: "/oauth2/sign_out"}},
+		{single(worldCfg{Secure: false, Replace: true}), 0, scenario{Name: "sign-out", Class: "LSignOut", Cookies: []string{ckS(true)}}, reqShape{Host: "[::1]:8443", Target: "/oauth2/sign_out"}},
+		{single(worldCfg{Secure: false, Replace: true}), 0, scenario{Name: "sign-out", Class: "LSignOut", Cookies: []string{ckS(true)}}, reqShape{Host: "app.example.test", Target: "http://app.example.test:8443/oauth2/sign_out"}},
 	}
 }
 
